@@ -10,6 +10,7 @@ import (
 	"os"
 	"path/filepath"
 	"reflect"
+	"regexp"
 	"sort"
 	"strings"
 	"syscall"
@@ -346,6 +347,20 @@ func importState(f *jen.File) (string, int) {
 	return digest(rows), len(rows)
 }
 
+var digitsRe = regexp.MustCompile(`[0-9]+`)
+
+// stableName keeps event logs free of process-specific names: anything that is not part
+// of the set-up (temp files a Save implementation creates: pids, counters, random suffixes)
+// has its digit runs masked.
+func stableName(rel string) string {
+	base := filepath.Base(rel)
+	switch base {
+	case "out.go", "keep.txt", "afile", "missing":
+		return rel
+	}
+	return filepath.Join(filepath.Dir(rel), digitsRe.ReplaceAllString(base, "N"))
+}
+
 func snapshotDir(dir string) []string {
 	var rows []string
 	filepath.Walk(dir, func(p string, info os.FileInfo, err error) error {
@@ -353,6 +368,7 @@ func snapshotDir(dir string) []string {
 			return nil
 		}
 		rel, _ := filepath.Rel(dir, p)
+		rel = stableName(rel)
 		if info.IsDir() {
 			rows = append(rows, rel+" dir")
 			return nil
@@ -617,7 +633,8 @@ func execBody(r *Recipe, env *Env, shared []*jen.Statement) (hist []Outcome) {
 				}
 				for _, c := range simhook.FSLog {
 					rel, _ := filepath.Rel(sub, c.Name)
-					o.FSLog = append(o.FSLog, fmt.Sprintf("%s %s size=%d partial=%d injected=%q err=%v", c.Op, rel, c.Size, c.Partial, strings.ReplaceAll(c.Injected, env.Sandbox, "$SANDBOX"), c.Err != ""))
+					rel = stableName(rel)
+					o.FSLog = append(o.FSLog, fmt.Sprintf("%s %s size=%d partial=%d injected=%q err=%v", c.Op, rel, c.Size, c.Partial, digitsRe.ReplaceAllString(strings.ReplaceAll(c.Injected, env.Sandbox, "$SANDBOX"), "N"), c.Err != ""))
 				}
 				o.FSAfter = snapshotDir(sub)
 				if st, e := os.Lstat(target); e == nil && st.Mode().IsRegular() {
@@ -636,6 +653,9 @@ func execBody(r *Recipe, env *Env, shared []*jen.Statement) (hist []Outcome) {
 		if env.Sandbox != "" {
 			// keep event logs free of process-specific paths
 			o.Err = strings.ReplaceAll(o.Err, env.Sandbox, "$SANDBOX")
+			if o.Kind == "save" {
+				o.Err = digitsRe.ReplaceAllString(o.Err, "N")
+			}
 			o.Panic = strings.ReplaceAll(o.Panic, env.Sandbox, "$SANDBOX")
 		}
 		if len(o.Err) > 400 {
